@@ -389,7 +389,10 @@ def _predicate(ctx):
               '><1', '>=1.0 x', '>=\n1.0']
     preds = extra + ['>=1.0', '<1.0,<1.5.0', '>=1.0,<2.0,!=1.5', '==1.0', ' > 1.0 ',
              '<=1.5 , >=1.2', '!=1.0,!=2.0', '>1.0,>1.2', 'bad', '>=', '=1.0',
-             '>=1.0,', '>= 1.0 2.0']
+             '>=1.0,', '>= 1.0 2.0',
+             # every comparison counts, wherever it stands in the list
+             '==1.0,!=1.0', '==2.0,<1.5', '<1.5,==2.0', '!=1.0,==1.0',
+             '==1.0,>=1.0,<1.0', '>=1.0,==1.5,<=1.2', '==1.0,==2.0']
     ref_rx = re.compile(r"^\s*(<=|>=|<|>|!=|==)\s*([^\s]+)\s*$")
 
     def on_call(interp, name, fv, args, kwargs):
